@@ -72,6 +72,56 @@ CHECKS["C10"] = ("TLC exhaustive check of Reload.tla (all load sequences x every
     "Fault points are those reachable through files and sockets; goroutine accounting matches on the function name runConfig.func1.",
     "DESIGN.md section 4 C10")
 
+CHECKS["C11"] = ("TLC invariant WindowKeepsBoth on Reload.tla + TLC-simulated reload sequences on a real OutlineServer with a gate between "
+    "start-new and stop-old, hammer clients and long-lived relays; every client operation judged by ReloadTrace.tla against the "
+    "configurations live during it",
+    "Reload.tla states that in the hand-over window every listener of both configurations is held and common keys serve; Listeners.tla "
+    "(C12) states that each connection/datagram goes to exactly one handle. On the code, a verif gate in loadConfig lets the harness "
+    "place real clients on every (address, key class) inside the window, after stop-old and after the reload; free-running clients "
+    "hammer TCP and UDP through ungated reloads; relays opened before a reload (idle, mid-transfer, half-closed, some across two "
+    "reloads) must complete byte-exact with status OK. TLC judges each operation against the set of configurations that were live "
+    "at some time during it (retained address never refused, common key authenticates, attribution from one of them, exactly one "
+    "open/close report).",
+    "7 valid configurations sharing addresses, <=4 reloads per scenario (hammer scenarios cycle them 3x). UDP 'refused' is observed "
+    "through ICMP on a connected socket. Needs eth0/192.0.2.2 for the relay sink (else recorded as skipped).",
+    "DESIGN.md section 4 C11")
+CHECKS["C05"] = ("TLC exhaustive check of AddrPolicy.tla (block table + RequirePublicIP transcription + where-the-policy-applies machine) + "
+    "TLC-generated decision table and scenarios run against the real handlers with sink sockets and a fake DNS; traces judged by "
+    "AddrPolicyTrace.tla; IPv4 sweep against the spec-exported table",
+    "The property layer is a table of special-purpose blocks (MustReject / MustAccept / don't-care) over octets/hextets; the mechanism "
+    "layer transcribes RequirePublicIP and the places the policy is applied (per resolved address for TCP, per datagram for UDP). TLC "
+    "checks agreement at every block boundary (first/last/+-1, mapped forms) and NoPrivateContact over all scenario behaviours; two "
+    "negative configs must be refuted. The real RequirePublicIP is compared with the TLC-generated table; TLC-generated TCP/UDP "
+    "scenarios (all SOCKS encodings, resolver answer sets, forbidden destination at datagram position 1,2,k) run through the real "
+    "handlers with the default dialer/validator against sinks on 127.0.0.1, ::1, fd00::2, fe80::%eth0 and 192.0.2.2; the thorough "
+    "tier sweeps all 2^32 IPv4 addresses in both byte forms.",
+    "IPv6 by prefix class x boundaries x seeded fill, not all 2^128. 192.0.2.2 (TEST-NET-1) is the reachable stand-in for a public "
+    "address. Forbidden destinations without a local sink are judged by status only.",
+    "DESIGN.md section 4 C05")
+CHECKS["C17"] = ("TLC exhaustive check of TunnelTime.tla (split Collect, ghost ideal accounting) + TLC-simulated histories replayed on the real "
+    "Prometheus collectors under a stubbed clock (re-entrant stub realises interleavings inside Collect); traces judged by "
+    "TunnelTimeTrace.tla",
+    "tunnelTimeMetrics is specified with Collect split into its clock read and its locked part; the property layer is the ideal "
+    "union-of-open-periods accounting computed from the Start/Stop history alone. TLC checks NonNegativeIncrement, exactness at "
+    "the lock, per-location = per-key sums and conservation across scrapes for 2 IPs x 2 keys x several tunnels with ticks and "
+    "overlapping scrapes; the variant with the clock read before the lock (pinned code) is kept as the expected model finding and "
+    "is replayed on the code. Histories simulated by TLC run through AddOpenTCPConnection/AddAuthenticated/AddClosed and "
+    "AddUDPNatEntry/RemoveNatEntry on the real collectors in a private registry; every scrape's reported values are validated.",
+    "Interleavings inside Collect are realised through the stubbable package variable `now`; unparsable client addresses are out of "
+    "scope. No Apalache inductive check (the spec uses recursive sums).",
+    "DESIGN.md section 4 C17")
+CHECKS["C20"] = ("TLC exhaustive enumeration of the location decision table (LocationLabel.tla) bound to the real ipinfo functions with a "
+    "recording fake database + TLC-generated traffic histories on the real collectors whose text exposition is scanned; judged by "
+    "LocationLabelTrace.tla",
+    "The decision table Label(address class, database mode) with the invariant 'database consulted => global unicast and lookup "
+    "enabled' is enumerated completely by TLC; every row is executed against ipinfo.GetIPInfoFromAddr/FromIP with ~90 concrete "
+    "addresses per class and 8 database behaviours (calls recorded). Exposure: TLC-generated histories drive the real "
+    "NewServiceMetrics collectors from distinctive client addresses; the exposition is scanned for every textual form of the client "
+    "IPs and ports, label names must be in the fixed set and `port` values must be listener addresses.",
+    "'Global' is read as Go's IsGlobalUnicast (private ranges are looked up, as the repository's own test pins). No process-level "
+    "/metrics scan.",
+    "DESIGN.md section 4 C20")
+
 PENDING = {}
 
 def main():
